@@ -84,6 +84,10 @@ func validateFlowConnection(flowConnection []*FlowConnection) error {
 	}
 
 	for _, connection := range flowConnection {
+		if connection == nil {
+			return fmt.Errorf("connection entry is empty")
+		}
+
 		if connection.From == nil {
 			return fmt.Errorf("connection from is required")
 		}
